@@ -68,6 +68,7 @@ type driver struct {
 	rejectN   atomic.Int64
 	gate      *gcGate
 	gcMu      sync.Mutex
+	gen       map[partKey]int
 	resMu     sync.Mutex
 	cursor    map[partKey]int64
 	payloads  map[partKey]map[string]int
@@ -261,6 +262,8 @@ func (d *driver) runStep(s *planStep) {
 		d.count("log_sync_gc", 1)
 	case "gc":
 		d.walGC()
+	case "recreate":
+		d.recreate(partKey{Shard: s.Shard, Family: s.Family})
 	case "meta":
 		rec := d.beginFlush(s)
 		if err := d.n.DB.FlushMeta(); err != nil {
@@ -640,6 +643,40 @@ func (d *driver) before(label string) {
 	}
 }
 
+// recreate does what the storage write handler does when a write stream arrives for a (shard, family, leader) whose
+// log partition the garbage collector has removed: GetOrCreatePartition + BuildReplicaForLeader (a new, empty log).
+func (d *driver) recreate(key partKey) {
+	old := d.parts[key]
+	if old == nil || !old.dead.Load() {
+		return
+	}
+	if _, err := d.wal.GetOrCreatePartition(models.ShardID(key.Shard), key.Family, selfNode); err != nil {
+		d.problem("re-create partition %s: %v", key, err)
+		return
+	}
+	ps := d.parts[key]
+	if ps == old {
+		d.problem("partition %s was not re-created", key)
+		return
+	}
+	if err := bindReplicator(ps); err != nil {
+		d.problem("build replica %s: %v", key, err)
+		return
+	}
+	d.resMu.Lock()
+	delete(d.cursor, key)
+	d.resMu.Unlock()
+	d.mu.Lock()
+	delete(d.bySeq, key)
+	delete(d.payloads, key)
+	if d.gen == nil {
+		d.gen = map[partKey]int{}
+	}
+	d.gen[key]++
+	d.L.Counters["log_partitions_recreated_after_garbage_collection"]++
+	d.mu.Unlock()
+}
+
 // walGC opens the gate for the manager's garbage collect task until it has asked every live partition once and has
 // finished that pass (= started the next one), and notes which partitions it removed.
 func (d *driver) walGC() {
@@ -803,7 +840,7 @@ func (d *driver) appendRows(rows []rowRec, writers int, split bool, reject ...st
 	ids := make([]int, len(built))
 	d.mu.Lock()
 	for i, b := range built {
-		e := entryRec{ID: len(d.L.Entries), Part: b.part, Seq: -1, Rows: b.rows, First: -1, Last: -1, Writers: writers, Reject: b.reject, Garbage: b.reject != ""}
+		e := entryRec{ID: len(d.L.Entries), Part: b.part, Seq: -1, Rows: b.rows, First: -1, Last: -1, Writers: writers, Reject: b.reject, Garbage: b.reject != "", Gen: d.gen[b.part]}
 		if b.reject != "" {
 			d.L.Counters["rejected_entries_appended."+b.reject]++
 		}
